@@ -1211,8 +1211,11 @@ type partDef struct {
 
 func (e *envT) hooksPart() partDef {
 	p := partDef{Name: "hooks", MaxDepth: -1}
-	p.Ops = []opDef{mkOp("install", "global", "repo", ""), mkOp("install", "global", "repo", "f"), opUpdate, opUpdateForce,
+	p.Ops = []opDef{mkOp("install", "global", "repo", ""), mkOp("install", "global", "repo", "f"), opUpdate,
 		mkOp("uninstall", "global", "repo", ""), opTrack}
+	if e.thorough {
+		p.Ops = append(p.Ops, opUpdateForce) // quick: update --force is exercised in scenario 'mixed' only
+	}
 	classes := hookClasses()
 	seen := map[uint64]bool{}
 	add := func(is initState) {
@@ -1773,6 +1776,7 @@ func TestVerifC20(t *testing.T) {
 		// the indices in a replay file refer to the initial states / alphabets of the tier it was recorded with
 		if rf, err := c.LoadReplay(); err == nil && (rf.Tier == "quick" || rf.Tier == "thorough") {
 			e.thorough = rf.Tier == "thorough"
+			c.Tier = rf.Tier       // Finish re-writes the replay file: keep the tier its indices belong to
 			wantOnly = rf.Scenario // build only that scenario
 		}
 	}
@@ -1798,7 +1802,7 @@ func TestVerifC20(t *testing.T) {
 	}
 
 	c.Rule = "multi-source BFS with canonical-state dedup (key = type/mode/bytes of every entry of every hooks directory and of symlinked user scripts + all config values of the 6 scope files) over the real git-lfs binary. " +
-		"Scenario 'hooks': every pre-existing hook class (see bounds) for each hook alone and for all four together x core.hooksPath {unset, relative, absolute} under {install, install --force, update, update --force, uninstall, track}; " +
+		"Scenario 'hooks': every pre-existing hook class (see bounds) for each hook alone and for all four together x core.hooksPath {unset, relative, absolute} under {install, install --force, update, uninstall, track (+ update --force in the thorough tier)}; " +
 		"scenarios 'cfg-<scope>' for the 6 scopes {global, --local, --worktree in main and in a linked worktree, --file, --system via GIT_CONFIG_SYSTEM}: combinations of filter.lfs.{clean,smudge,process}∈{unset,current,historical,custom} x required∈{unset,true,false} plus multi-valued keys under {install, install --force, install --skip-smudge, uninstall} (--skip-repo) to closure; " +
 		"scenario 'mixed': hooks x multi-scope configurations under the cross-scope alphabet. Every install transition additionally runs the probes install;install and install;install;uninstall. " +
 		"A case (state, operation) is non-trivial when the state holds at least one user-owned hook entry or custom filter value, or the operation changed the state; distinct = distinct (canonical state key, operation)."
@@ -1836,7 +1840,7 @@ func TestVerifC20(t *testing.T) {
 				r := exec(rf.Prefix)
 				st := vx.NewStats()
 				st.Absorb(rf.Prefix, &r, 0)
-				fmt.Printf("replayed %s: %v\n", p.where(rf.Prefix[0].C, nil), r.Sample)
+				fmt.Printf("replayed scenario %s choices %v: %v\n", p.Name, rf.Choices, r.Sample)
 				os.Exit(c.Finish([]vx.Part{{Scenario: p.Name, Stats: st, Exec: exec}}, nil))
 			}
 		}
